@@ -15,6 +15,7 @@ const (
 	ckText
 	ckZero
 	ckLongRepeat
+	ckHeadRandom // ~300 random bytes, then zeros: the first 64 KiB deflate block comes out as one 240-byte piece
 	numContentKinds
 )
 
@@ -52,6 +53,13 @@ func expand(kind int, seed uint64, n int) []byte {
 			i += copy(b[i:], w)
 		}
 	case ckZero:
+	case ckHeadRandom:
+		for i := 0; i < n && i < 300; i++ {
+			if i%8 == 0 {
+				next()
+			}
+			b[i] = byte(x >> (8 * (uint(i) % 8)))
+		}
 	case ckLongRepeat:
 		// a random block repeated at a distance beyond the 32 KiB window
 		blk := 40000
@@ -150,6 +158,7 @@ type inMsg struct {
 	Compressed bool
 	Variant    ref.DeflateVariant
 	Frags      []int // sizes of the frames' payloads (over the raw, possibly compressed bytes)
+	EmptyRun   int   // >0: that many empty continuation frames were inserted in a row
 	// Controls[i] lists control frames placed before fragment i (len = len(Frags)+1; last = after the message).
 	Controls [][]ref.Frame
 
@@ -158,6 +167,9 @@ type inMsg struct {
 }
 
 func (m inMsg) String() string {
+	if m.EmptyRun > 0 {
+		return fmt.Sprintf("{text=%v kind=%d len=%d comp=%v/%v frags=%d incl. a run of %d empty}", m.Text, m.Kind, m.Len, m.Compressed, m.Variant, len(m.Frags), m.EmptyRun)
+	}
 	return fmt.Sprintf("{text=%v kind=%d len=%d comp=%v/%v frags=%v}", m.Text, m.Kind, m.Len, m.Compressed, m.Variant, m.Frags)
 }
 
@@ -170,6 +182,7 @@ type inStreamOpts struct {
 	Controls  bool // interleave ping/pong frames
 	JSONish   bool // payloads are JSON numbers/arrays (for wsjson observation)
 	AllowBFin bool
+	EmptyRuns bool // now and then a run of 20-300 empty continuation frames
 }
 
 func genControl(rt *rapid.T, label string) ref.Frame {
@@ -213,9 +226,21 @@ func genInStream(rt *rapid.T, o inStreamOpts) ([]inMsg, []ref.Frame) {
 			m.raw = def.Message(m.payload, v)
 		}
 		m.Frags = splitSizes(rt, len(m.raw), o.MaxFrags, "frag")
+		if o.EmptyRuns && rapid.IntRange(0, 24).Draw(rt, "emptyRun") == 0 {
+			// a long run of empty continuation frames inside the message (legal, RFC 6455 5.4)
+			run := rapid.SampledFrom([]int{20, 99, 100, 101, 150, 300}).Draw(rt, "emptyRunLen")
+			pos := rapid.IntRange(1, len(m.Frags)).Draw(rt, "emptyRunPos")
+			fr := append([]int(nil), m.Frags[:pos]...)
+			fr = append(fr, make([]int, run)...)
+			m.Frags = append(fr, m.Frags[pos:]...)
+			m.EmptyRun = run
+		}
 		m.Controls = make([][]ref.Frame, len(m.Frags)+1)
 		if o.Controls {
 			for j := range m.Controls {
+				if j > 6 && j < len(m.Controls)-2 {
+					continue
+				}
 				k := rapid.SampledFrom([]int{0, 0, 0, 1, 1, 2}).Draw(rt, "nCtl")
 				for c := 0; c < k; c++ {
 					m.Controls[j] = append(m.Controls[j], genControl(rt, "ctl"))
